@@ -546,6 +546,21 @@ def run(c, facts, tier):
         for f_ in list(a.values) + list(a.maps):
             if f_ is not None and rx.path_str(f_) and rx.canon_path(rx.path_str(f_), tscope).startswith(spec["token_enum"] + "::"):
                 outer = rx.canon_path(rx.path_str(f_), tscope)
+        if a.lit is not None and not (outer is not None and outer.split("::")[-1] in facts.variants(spec["token_enum"])) and (a.values or a.maps):
+            # the token is computed (`.value(Token::from(Connective::Or))`, `.map(Token::from)` after a table of private
+            # values): the value and the maps are evaluated, innermost first (vlib/probe.py)
+            from .. import probe as P
+
+            try:
+                pr_ = P.Probe(facts, None, facts.fn(tokfn).module)
+                val_ = pr_.ev(a.values[0], {}) if a.values and a.values[0] is not None else None
+                ok_ = val_ is not None
+                for f_ in (a.maps if ok_ else []):
+                    val_ = pr_.apply(pr_.ev(f_, {}), [val_])
+                if ok_ and isinstance(val_, tuple) and len(val_) == 3 and val_[0] == "enum" and not val_[2]:
+                    outer = rx.canon_path(val_[1], tscope)
+            except (P.NoEval, P.Panic):
+                pass
         if a.lit is not None and len(a.path) == 1 or (a.lit is not None and all(facts.fns[k_].impl is None for k_ in a.path)):
             if a.lit not in lexmap:
                 lexmap[a.lit] = outer
